@@ -1,6 +1,6 @@
 (* Command dispatcher of the extracted engine. *)
 From Zorg Require Import Base.PyStr Base.Sexp Base.Res.
-From Zorg Require Import Model.FileGroups Model.Zid Model.Rename Model.Templates Model.SavedQ Model.ActionOpen Model.FileListener Model.NoteText Model.Executor Model.Move Model.QueryListener Model.Where Model.WriteBack Model.WorldWire Model.PageSyntax Model.Whitelist Model.QuerySyntax Model.PageText.
+From Zorg Require Import Model.FileGroups Model.Zid Model.Rename Model.Templates Model.SavedQ Model.ActionOpen Model.FileListener Model.NoteText Model.Executor Model.Move Model.QueryListener Model.Where Model.WriteBack Model.WorldWire Model.PageSyntax Model.Whitelist Model.QuerySyntax Model.PageText Model.PageLines.
 
 Definition commands : list (str * (list sexp -> sexp)) :=
   [ (S "expand", cmd_expand)
@@ -40,6 +40,12 @@ Definition commands : list (str * (list sexp -> sexp)) :=
   ; (S "update_zo", cmd_update_zo)
   ; (S "stamp", cmd_stamp)
   ; (S "world_run", cmd_world_run)
+  ; (S "page_text", cmd_page_text)
+  ; (S "page_zid_text", cmd_page_zid_text)
+  ; (S "page_zid_lines", cmd_page_zid_lines)
+  ; (S "page_zid_ready", cmd_page_zid_ready)
+  ; (S "page_mdate_text", cmd_page_mdate_text)
+  ; (S "page_mdate_ready", cmd_page_mdate_ready)
   ].
 
 Fixpoint find_cmd (n : str) (l : list (str * (list sexp -> sexp))) : option (list sexp -> sexp) :=
